@@ -169,7 +169,7 @@ func genRS(t *rapid.T) RSCase {
 		// a forged block together with a successor that names it and carries the attackers' precommits
 		g := rapid.IntRange(1, c.N-1).Draw(t, "forged-at")
 		kinds[g] = "txs"
-		kinds[g+1] = rapid.SampledFrom([]string{"on-forged", "on-forged-repeat", "on-forged-repeat", "on-genuine-repeat"}).Draw(t, "forged-next")
+		kinds[g+1] = rapid.SampledFrom([]string{"on-forged", "on-forged-repeat", "on-forged-repeat", "on-genuine-repeat", "on-forged-prevotes", "on-forged-prevotes"}).Draw(t, "forged-next")
 		if kinds[g+1] == "on-genuine-repeat" {
 			kinds[g] = "genuine"
 		}
